@@ -292,7 +292,39 @@ def run(rep: common.Report, tier: str, seed: int, replay=None) -> int:
                           {**case, "first_bad_point": int(np.argmax(eA > 1e-8)), "max_rel": float(eA.max())})
         rep.count(1)
         rep.nontrivial(("many-points", npts > 2 ** 22 // ns))
+    # ---------- the applied potential given as a plain function (documented: "a function or tdgl.Parameter") ----------
+    with tempfile.TemporaryDirectory(prefix="pyt_c20f_") as td:
+        fdev = meshes.make_device(rng, holes=0, terminals=0, max_edge_length=1.3)
+
+        def A_plain(x, y, z):
+            return np.stack([-0.15 * y, 0.15 * x, np.zeros_like(x)], axis=1)
+        try:
+            solf = tdgl.solve(fdev, runs.make_options(td, solve_time=0.03, dt_init=2e-3, dt_max=1e-2, output_file=f"{td}/plain.h5"),
+                              applied_vector_potential=A_plain)
+            Pf = np.array([[0.5, -0.4, 0.7], [-1.0, 1.0, 1.2], [2.0, 0.3, -0.9]])
+            Af = solf.vector_potential_at_position(Pf, return_sum=False, with_units=False)
+            At = np.asarray(solf.vector_potential_at_position(Pf, return_sum=True, with_units=False))
+            if "applied" not in Af or np.max(np.abs(np.asarray(Af["applied"])[:, :2] - A_plain(Pf[:, 0], Pf[:, 1], Pf[:, 2])[:, :2])) > 1e-12 or \
+                    np.max(np.abs(At - sum(np.asarray(v_) for v_ in Af.values()))) > 1e-10 * float(np.max(np.abs(At)) + 1e-300):
+                rep.violation("with a plain function as applied potential the total vector potential is not applied + supercurrent + normal parts", {})
+        except Exception as e:  # noqa: BLE001
+            rep.violation(f"vector_potential_at_position with a plain function as applied potential raised {type(e).__name__}: {e}"[:200], {})
+        rep.count(1)
+        rep.nontrivial(("plain-function-A",))
     # ---------- H <-> B conversions round-trip ----------
+    # ... also with the units given as pint.Unit objects of the package's registry (documented: str or pint.Unit)
+    for v, u1, u2 in ((1.0, "mT", "A/m"), (2.5, "A/m", "uT"), (0.3, "mT", "uT")):
+        try:
+            U1, U2 = ureg.Unit(u1), ureg.Unit(u2)
+            a_ = convert_field(v, U2, old_units=U1, with_units=False)
+            ref_ = convert_field(v, u2, old_units=u1, with_units=False)
+            back_ = convert_field(a_, U1, old_units=U2, with_units=False)
+            if abs(a_ - ref_) > 1e-12 * abs(ref_) or abs(back_ - v) > 1e-12 * abs(v):
+                rep.violation("convert_field with pint.Unit arguments differs from the same conversion with unit strings / does not round-trip",
+                              {"value": v, "from": u1, "to": u2, "got": float(a_), "expected": float(ref_)})
+        except Exception as e:  # noqa: BLE001
+            rep.violation(f"convert_field with pint.Unit arguments raised {type(e).__name__}: {e}"[:200], {"value": v, "from": u1, "to": u2})
+        rep.count(1)
     for v, u1, u2 in ((1.0, "mT", "A/m"), (3.5, "uT", "mA/um"), (120.0, "A/m", "mT"), (0.2, "uA/um", "uT"), (2.0, "mT", "uT")):
         try:
             a = convert_field(f"{v} {u1}", u2)
